@@ -1,0 +1,50 @@
+//go:build verif
+// +build verif
+
+package route
+
+import (
+	"github.com/grafana/carbon-relay-ng/persister"
+	"github.com/grafana/metrictank/schema"
+)
+
+// Read-only accessors for the conformance drivers of /verif (properties C15, C16).
+// Verification builds only; nothing here changes behaviour.
+
+// VerifRingEntry is one entry of a consistent-hashing ring, in ring order.
+type VerifRingEntry struct {
+	Position         uint16
+	Hostname         string
+	Instance         string
+	DestinationIndex int
+}
+
+// VerifRing returns a copy of the ring the route currently dispatches with,
+// and the number of destinations of the same configuration snapshot.
+func (route *ConsistentHashing) VerifRing() ([]VerifRingEntry, int) {
+	conf := route.config.Load().(consistentHashingConfig)
+	out := make([]VerifRingEntry, len(conf.Hasher.Ring))
+	for i, e := range conf.Hasher.Ring {
+		out[i] = VerifRingEntry{e.Position, e.Hostname, e.Instance, e.DestinationIndex}
+	}
+	return out, len(conf.Dests())
+}
+
+// VerifGetSchemas reads a storage-schemas file the way the grafanaNet and kafkaMdm routes do.
+func VerifGetSchemas(schemasFile string) (persister.WhisperSchemas, error) {
+	return getSchemas(schemasFile)
+}
+
+// VerifParseMetricWith runs the routes' line -> MetricData conversion with schemas already read.
+func VerifParseMetricWith(buf []byte, schemas persister.WhisperSchemas, orgId int) (*schema.MetricData, error) {
+	return parseMetric(buf, schemas, orgId)
+}
+
+// VerifParseMetric reads schemasFile and converts one line.
+func VerifParseMetric(buf []byte, schemasFile string, orgId int) (*schema.MetricData, error) {
+	schemas, err := getSchemas(schemasFile)
+	if err != nil {
+		return nil, err
+	}
+	return parseMetric(buf, schemas, orgId)
+}
